@@ -149,12 +149,13 @@ class Gen:
             n = self.fresh("L"); L.append(f"sloop {n}"); self.add_stream(n, {n}); self.open_sloops.append(n)
         else:
             n = self.fresh("K"); L.append(f"cloop {n}"); self.add_cell(n, {n}); self.open_cloops.append(n)
-        w = self.p["weights"]; saved = (w["sloop"], w["cloop"]); w["sloop"] = w["cloop"] = 0
+        w = self.p["weights"]; saved = (w["sloop"], w["cloop"], w["switchc"]); w["sloop"] = w["cloop"] = 0
+        if self.p.get("no_switchc_in_loop"): w["switchc"] = 0
         made = 0
         for _ in range(30):
             if made >= self.r.randint(2, 5): break
             if self.gen_def(): made += 1
-        w["sloop"], w["cloop"] = saved
+        w["sloop"], w["cloop"], w["switchc"] = saved
         pos_variation = self.r.random()
         if kind == "sloop":
             cands = [s for s in self.streams if n not in self.taint[s] and s not in self.dropped]
